@@ -30,13 +30,9 @@ Definition be_val (l : bytes) : Z := le_val (rev l).
 (* Python slicing l[a:b] with 0 <= a : truncates silently *)
 Definition slice (l : bytes) (a len : nat) : bytes := firstn len (skipn a l).
 
-(* number of bytes needed: (n.bit_length() + 7) // 8 *)
-Fixpoint nbytes_fuel (fuel : nat) (n : Z) : nat :=
-  match fuel with
-  | O => O
-  | S f => if n <=? 0 then O else S (nbytes_fuel f (n / 256))
-  end.
-Definition nbytes (n : Z) : nat := nbytes_fuel (Z.to_nat (Z.log2 n / 8 + 1)) n.
+(* number of bytes needed: (n.bit_length() + 7) // 8 ; bit_length n = log2 n + 1 for n > 0 *)
+Definition nbytes (n : Z) : nat :=
+  if n <=? 0 then O else Z.to_nat ((Z.log2 n + 8) / 8).
 
 (* lexicographic comparison of byte strings, Python's bytes.__lt__ *)
 Fixpoint bytes_ltb (a b : bytes) : bool :=
